@@ -228,7 +228,7 @@ def run_grid(cdef, tier, seed, max_fail=300, procs=16):
     global _TIMEOUTS
     import multiprocessing as _mp
     _TIMEOUTS = _mp.get_context("fork").Value("i", 0)
-    if len(cases) >= 32 and procs > 1:
+    if len(cases) >= 12 and procs > 1:
         from concurrent.futures import ProcessPoolExecutor
         import multiprocessing as mp
         with ProcessPoolExecutor(max_workers=procs, mp_context=mp.get_context("fork")) as ex:
